@@ -8,6 +8,7 @@ CONSTANT Pads = {}
 CONSTANT SzAs = {}
 CONSTANT SzBs = {}
 CONSTANT WrapDefect = FALSE
+CONSTANT FullW = 0
 INIT Init
 NEXT Next
 INVARIANT ClassDecides
